@@ -677,6 +677,17 @@ func registerExternals() {
 			if bits == 0 {
 				bits = 64
 			}
+			if bits == 8 || bits == 16 || bits == 32 {
+				// the result is an int64 holding a value of the narrower range, or a range error
+				if v, ok := parseMarker(fr, s, uint8(bits), true); ok {
+					if v == nil {
+						return tuple{int64(0), fr.i.makeError("strconv.ParseInt: value out of range")}
+					}
+					if w, ok2 := parseMarker(fr, s, 64, true); ok2 && w != nil {
+						return tuple{w, iface{}}
+					}
+				}
+			}
 			if v, ok := parseMarker(fr, s, 64, true); ok && bits == 64 {
 				if v == nil {
 					return tuple{int64(0), fr.i.makeError("strconv.ParseInt: value out of range")}
